@@ -344,6 +344,8 @@ class Check:
               "violations": len(self.violations)}
         EVID.mkdir(exist_ok=True)
         (EVID / f"{self.prop}.json").write_text(json.dumps(ev, indent=1, default=str) + "\n")
+        for d in self.drift[:5]:
+            print(f"DRIFT property={self.prop} (implementation-level model and code differ; verdict by the contract only): {d}"[:400])
         for sig, text in sorted(self.known_seen.items()):
             print(f"KNOWN-FINDING: property={self.prop} {text} [sig={sig}]")
         for sig, text, path in self.violations:
